@@ -74,6 +74,7 @@ type Engine struct {
 	selfNames    map[string]Value
 	callRes      map[string][]Value // results of contract calls by callee name (spec: res(Callee_Name, i))
 	dynType      map[string]types.Type
+	arrayMode    bool
 	extraStreams []*Term
 }
 
@@ -513,7 +514,7 @@ func (e *Engine) recv(st *State, ch VStream, where string) (Value, *Term) {
 	default:
 		v = got
 	}
-	st.mem["consumed:"+ch.ID.String()] = mkIte(ok, mkArith("+", c, mkInt(1)), c)
+	e.setConsumed(st, ch.ID, mkIte(ok, mkArith("+", c, mkInt(1)), c))
 	return v, ok
 }
 
@@ -529,12 +530,12 @@ func (e *Engine) send(st *State, ch VStream, v Value, where string) {
 	}
 	// causal check hook
 	e.onSend(st, ch, n, where)
-	st.mem["sent:"+ch.ID.String()] = mkArith("+", n, mkInt(1))
+	e.setSent(st, ch.ID, mkArith("+", n, mkInt(1)))
 }
 
 func (e *Engine) closeStream(st *State, ch VStream, where string) {
 	e.assert(st, mkNot(e.closed(st, ch.ID)), "close-once", where, nil)
-	st.mem["closed:"+ch.ID.String()] = tTrue
+	e.setClosed(st, ch.ID, tTrue)
 	st.assume(mkEq(e.slen(ch.ID), e.sent(st, ch.ID)))
 }
 
